@@ -144,6 +144,8 @@ def distinct_nontrivial(cases):
 
 # ------------------------------------------------------------------ process level
 
+CLI_STATS = {}
+
 class CliCase:
     __slots__ = ('label', 'args', 'files', 'stdin', 'script', 'note', 'out', 'err', 'status', 'timed_out', 'model')
     def __init__(self, label, args, files=None, stdin=b'', script=None, note=None):
@@ -195,6 +197,19 @@ def execute_cli(cases, timeout=10, fuel=8000, jobs=None):
         c.model = None
     for c, m in zip(withmodel, mod):
         c.model = m
+    # as in `execute`: a process that ended normally while the model driver ran out of its step budget is beyond the
+    # driver's reach, not a disagreement — asked again with eight times the budget, unanswered if that is not enough
+    starved = [(c, r) for c, r in zip(withmodel, reqs) if (c.model or '').startswith('ABN:fuel') and not c.timed_out]
+    if starved and len(starved) <= 100:
+        again = run_model([r for _, r in starved], fuel=fuel * 8, jobs=8)
+        for (c, _), m in zip(starved, again):
+            c.model = m
+    unanswered = 0
+    for c in withmodel:
+        if (c.model or '').startswith('ABN:fuel') and not c.timed_out:
+            c.model = None
+            unanswered += 1
+    CLI_STATS['model_unanswered'] = CLI_STATS.get('model_unanswered', 0) + unanswered
     return {'impl_s': round(t1 - t0, 1), 'model_s': round(time.time() - t1, 1)}
 
 def cli_canon_err(err):
